@@ -19,18 +19,19 @@ CO_VARKEYWORDS = 0x08
 
 
 class Computation:
-    __slots__ = ("inst", "handler", "expr", "key", "frame", "seq")
+    __slots__ = ("inst", "handler", "expr", "key", "frame", "seq", "parent")
 
-    def __init__(self, inst, handler, expr, key, frame, seq):
+    def __init__(self, inst, handler, expr, key, frame, seq, parent=None):
         self.inst, self.handler, self.expr = inst, handler, expr
         self.key, self.frame, self.seq = key, frame, seq
+        self.parent = parent     # the computation (of the same instance) this one started in
 
 
 class HandlerObserver:
     def __init__(self):
         self.watched = {}       # id(instance) -> label
         self._keep = []         # keeps watched instances and seen exprs alive
-        self.stack = []         # [(frame, inst_id, id(expr), argkey)]
+        self.stack = []         # [(frame, inst_id, id(expr), argkey, Computation)]
         self.log = []           # Computation objects, in start order
         self.memo = {}          # canon memo (holds object refs)
         self.active = False
@@ -71,22 +72,28 @@ class HandlerObserver:
                 kw.update(loc.get(vn[pos], {}))
             argkey = jkey([canon(tuple(extra), self.memo), canon(kw, self.memo)])
             st = self.stack
+            parent = None
             for k in range(len(st) - 1, -1, -1):
                 if st[k][1] == iid:
+                    parent = st[k][4]
                     if st[k][2] == id(expr) and st[k][3] == argkey:
                         # delegation for the same node: not a new computation
-                        st.append((frame, iid, id(expr), argkey))
                         if name in self.always:
                             key = jkey([canon(expr, self.memo), argkey])
-                            self.log.append(Computation(label, name, expr, key, frame,
-                                                        len(self.log)))
+                            c = Computation(label, name, expr, key, frame, len(self.log),
+                                            parent)
+                            self.log.append(c)
+                            st.append((frame, iid, id(expr), argkey, c))
+                        else:
+                            st.append((frame, iid, id(expr), argkey, parent))
                         return
                     break
-            st.append((frame, iid, id(expr), argkey))
             self._keep.append(expr)
             self.calls += 1
             key = jkey([canon(expr, self.memo), argkey])
-            self.log.append(Computation(label, name, expr, key, frame, len(self.log)))
+            c = Computation(label, name, expr, key, frame, len(self.log), parent)
+            st.append((frame, iid, id(expr), argkey, c))
+            self.log.append(c)
         elif event == "return":
             st = self.stack
             if st and st[-1][0] is frame:
@@ -125,3 +132,4 @@ class HandlerObserver:
     def release_frames(self, mark=0):
         for c in self.log[mark:]:
             c.frame = None
+            c.parent = None
